@@ -1252,3 +1252,11 @@ func (c *Ctx) forwardersKeepTheirArguments(rule string, rels []string, keep func
 		}
 	}
 }
+
+// iposOrEmpty: the position of an instruction, or "" for none (messages about a path that was not found are never printed).
+func iposOrEmpty(c *Ctx, in ssa.Instruction) string {
+	if in == nil {
+		return ""
+	}
+	return c.ipos(in)
+}
